@@ -513,6 +513,15 @@ class StdioClient:
 
         except Exception as e:
             logger.debug(f"Error during stdio client shutdown: {e}")
+        finally:
+            # Reached also when the caller's scope was cancelled mid-shutdown:
+            # never leave the child running behind us.
+            if self.process and self.process.returncode is None:
+                with anyio.CancelScope(shield=True):
+                    try:
+                        await self._terminate_process()
+                    except Exception as e:
+                        logger.debug(f"Error during stdio client shutdown: {e}")
 
         return False
 
